@@ -327,7 +327,7 @@ func TestVerif_C18(t *testing.T) {
 		defer func() { maxDiffLayers = old }()
 
 		maxLen := mc.Pick(r, 3, 4)
-		maxCommits := mc.Pick(r, 1, 2)
+		maxCommits := mc.Pick(r, 1, 1)
 		r.Rule("all canonical histories of 1..L transitions over the C17 delta alphabet with Commit at every position, each alone and followed by a rollback to every " +
 			"state below the disk layer plus a different 2-transition fork; x {history limit 0|2} x {write buffer 0|1MB} x {trienode history off|on}, indexing enabled; " +
 			"then for every root ever created (canonical, abandoned, 2 unknown) HistoricReader reads of 4 accounts x 3 slots (incl. never-used keys) and complete " +
